@@ -4,7 +4,7 @@
    a sample of every run (the in-kernel sample), so the extraction itself is checked. *)
 From Coq Require Import List Ascii String Bool Arith NArith ZArith.
 Require Import Show.
-Require V1 V5 V6 V3 V11 V13 A1 D3 M6 M6b GS R2 R2u PU ACC2 AR AR2 AR3 ARu CL TS3 CX SchemaDefs Schema_gen H12 H13 S11 D16 DEB U20 U20d.
+Require V1 V5 V6 V3 V11 V13 A1 D3 M6 M6b GS R2 R2u PU ACC2 PATH AR AR2 AR3 ARu CL TS3 CX SchemaDefs Schema_gen H12 H13 S11 D16 DEB U20 U20d.
 Import ListNotations.
 Open Scope string_scope.
 Open Scope list_scope.
@@ -194,6 +194,11 @@ Definition run_deb822 (op : string) (a : list str) : option str :=
      Some (match R2u.read_all_u (g 1) with
            | Some (p :: _) => lit "ok " ++ unwords (map (fun f => f ++ lit "=" ++ show_dep (ACC2.get_optional_dep f p)) fields)
            | _ => lit "err" end))
+  else if op =? "pclean" then Some (hx (PATH.clean (g 0)))
+  else if op =? "pjoin" then Some (hx (PATH.join2 (g 0) (g 1)))
+  else if op =? "pbase" then Some (hx (PATH.base (g 0)))
+  else if op =? "pdir" then Some (hx (PATH.dir (g 0)))
+  else if op =? "pext" then Some (hx (PATH.ext (g 0)))
   else if op =? "pset" then Some (show_para (para_of_args a R2.empty_para))
   else if op =? "pupdate" then
     (let n := arg_nat (g 0) in
@@ -450,10 +455,11 @@ Definition run_clearsign (op : string) (a : list str) : option str :=
           end)
   else None.
 
-(* ---- .deb loading and debsig: C14 C16 (tar, decompressors, path.Clean, filepath.Ext and the signature check
-   come in as oracle answers computed by the harness with the libraries directly) ---- *)
+(* ---- .deb loading and debsig: C14 C16 (tar, the decompressors and the signature check come in as oracle answers
+   computed by the harness with the libraries directly; path.Clean, filepath.Ext and IsTarfile are the model PATH.v - the
+   is-tar / extension columns of the oracle table are no longer read) ---- *)
 Record omember := { om_name : str; om_istar : bool; om_ext : str; om_decok : bool; om_untarok : bool;
-                    om_files : list (str * str * str) }.       (* cleaned name, content, printed form *)
+                    om_files : list (str * str * str) }.       (* raw tar entry name, content, printed form *)
 Fixpoint take_files (n : nat) (a : list str) : list (str * str * str) * list str :=
   match n, a with
   | S n', x :: y :: z :: r => let '(fs, rest) := take_files n' r in ((x, y, z) :: fs, rest)
@@ -481,10 +487,10 @@ Definition deb_record (tbl : list omember) (buf : str) (pick : list D16.member -
                       | Some o => if om_untarok o then Some (map (fun f => (fst (fst f), snd (fst f))) (om_files o)) else None
                       | None => None end)
         (fun ext d => match find_om tbl (name_of_data d) with Some o => if om_decok o then Some (om_name o) else None | None => None end)
-        (fun x => x)
+        PATH.clean           (* path.Clean: the model, on the raw tar entry names the oracle lists *)
         (fun text => match schema_named (lit "deb_control") with Some (sch, _) => CX.decode_text sch text | None => None end)
-        (fun n => match find_om tbl n with Some o => om_ext o | None => [] end)
-        (fun n => match find_om tbl n with Some o => om_istar o | None => false end)
+        PATH.ext             (* filepath.Ext and ArEntry.IsTarfile: the model, on the member names *)
+        PATH.is_tarfile
         pick ms
   | _ => None
   end.
@@ -492,7 +498,7 @@ Definition first_pick (l : list D16.member) : option D16.member := hd_error l.
 Definition show_files (tbl : list omember) : str :=
   (* the data tar listing, in the printed form the oracle supplied (the data member is unique when loading succeeds) *)
   match find (fun o => D16.has_prefix_s (lit "data.") (om_name o)) tbl with
-  | Some o => show_list (fun f => lit "( " ++ hx (fst (fst f)) ++ sp1 ++ snd f ++ lit " )") (om_files o)
+  | Some o => show_list (fun f => lit "( " ++ hx (PATH.clean (fst (fst f))) ++ sp1 ++ snd f ++ lit " )") (om_files o)
   | None => lit "[]"
   end.
 Definition run_debpkg (op : string) (a : list str) : option str :=
